@@ -356,6 +356,8 @@ func (np *Pool) UnmarshalMsg(b []byte) ([]byte, error) {
 		return nil, err
 	}
 
+	np.Type = d.Type
+	np.NodesMap = d.NodesMap
 	np.Nodes = make([]*Node, 0, len(d.NodesMap))
 	for k := range d.NodesMap {
 		n := d.NodesMap[k]
